@@ -1715,12 +1715,12 @@ def switch_bbox_epsg_axis_order""", 'C01.a'),
 """, 'C14.m', 'revert of fix D50 (polygon coverage)'),
 
     M('M-C11n-revert-D51-script', 'mapproxy/seed/script.py', """                                     continue_seed=options.continue_seed,
-                                     read_only=options.dry_run)""", """                                     continue_seed=options.continue_seed)""", 'C11.n', 'revert of fix D51 (the script builds a writable store in a dry run)'),
+                                     read_only=options.dry_run)""", """                                     continue_seed=options.continue_seed)""", 'C11.n|C12.r', 'revert of fix D51 (the script builds a writable store in a dry run)'),
     M('M-C11n-revert-D51-write', 'mapproxy/seed/util.py', """    def write(self):
         if self.read_only:
             return
 """, """    def write(self):
-""", 'C11.n', 'revert of fix D51 (write ignores the flag)'),
+""", 'C11.n|C12.r', 'revert of fix D51 (write ignores the flag)'),
     M('M-C11n-remove-ignores-flag', 'mapproxy/seed/util.py', """        self.status = {}
         if self.read_only:
             return
